@@ -273,6 +273,8 @@ func (ic *incorp) callDeps(c *ssa.Call) depSet {
 			return wrapTag("Participants", recv)
 		case "Len":
 			return wrapTag("Len", recv)
+		case "Sizes":
+			return wrapTag("Sizes", recv)
 		case "Sum": // hash.Hash.Sum(b): digest of everything written, appended to b
 			out.add(ic.writtenTo(c.Call.Value))
 			if len(c.Call.Args) > 0 {
